@@ -239,6 +239,36 @@ func prettyGuarded(ast *parser.ASTNode) (out string) {
 // parseOnce parses a text and renders the outcome. A panic inside the parser
 // is an outcome like any other here (it is the business of C07): it only has
 // to be the same outcome as on one goroutine.
+// a statement whose identifiers are replaced by never seen ones for every concurrent parse
+const (
+	freshA        = "fwAAAAAAAAAA"
+	freshB        = "gwBBBBBBBBBB"
+	freshTemplate = freshA + " := " + freshB + "." + freshA + "(" + freshB + ", 1) + " + freshA + " # " + freshB + "\nif " + freshA + " {\n    " + freshB + " := {\"" + freshA + "\" : " + freshB + "}\n}\n"
+)
+
+var (
+	freshSerial atomic.Int64
+	freshOnce   [2]sync.Once
+	freshExp    [2]string
+)
+
+// freshExpected is the sequential result for the template (placeholder names), without / with a runtime provider.
+func freshExpected(withProvider bool) string {
+	k := 0
+	if withProvider {
+		k = 1
+	}
+	freshOnce[k].Do(func() {
+		var rp *interpreter.ECALRuntimeProvider
+		if withProvider {
+			rp = newProvider(nil, nil, 0)
+			defer closeProvider(rp, false)
+		}
+		freshExp[k] = parseOnce(freshTemplate, rp, false, nil)
+	})
+	return freshExp[k]
+}
+
 func parseOnce(text string, rp *interpreter.ECALRuntimeProvider, pretty bool, ids *[]uint64) (out string) {
 	defer func() {
 		if r := recover(); r != nil {
@@ -710,6 +740,7 @@ func runCase(c Case) *hx.Failure {
 		nEvals    atomic.Int64
 		idLists   = make([][]uint64, G)
 		nParses   atomic.Int64
+		nFresh    atomic.Int64
 		start     = make(chan struct{})
 		gotLines  []string
 	)
@@ -750,6 +781,23 @@ func runCase(c Case) *hx.Failure {
 						stop.Store(true)
 					}
 				}
+				if i%2 == 0 {
+					// words this process has never lexed before, first seen while other parses run: the expectation is
+					// the sequential result of the same statement with placeholder names
+					// (names of the placeholders' length: token positions are part of the result)
+					n := freshSerial.Add(1)
+					a, b := fmt.Sprintf("fw%010d", n), fmt.Sprintf("gw%010d", n)
+					out := parseOnce(strings.NewReplacer(freshA, a, freshB, b).Replace(freshTemplate), rp, false, nil)
+					if want := strings.NewReplacer(freshA, a, freshB, b).Replace(freshExpected(rp != nil)); out != want {
+						mmLock.Lock()
+						if first == nil {
+							first = &mismatch{-1, g, i, "statement with fresh identifiers " + a + ", " + b + ": " + out + "\nexpected: " + want}
+						}
+						mmLock.Unlock()
+						stop.Store(true)
+					}
+					nFresh.Add(1)
+				}
 				p := (g + i) % P
 				if done[p] >= quota[p] || invalid[p] && g >= invalidCap {
 					continue
@@ -779,6 +827,7 @@ func runCase(c Case) *hx.Failure {
 	close(start)
 	wg.Wait()
 	hx.E.Class("parses.concurrent", nParses.Load())
+	hx.E.Class("parses.concurrent.fresh-identifiers", nFresh.Load())
 	hx.E.Class("host-evals.concurrent", nEvals.Load())
 	if evalMode {
 		hx.E.Class("events.concurrent", int64(len(c.Events)))
@@ -789,6 +838,9 @@ func runCase(c Case) *hx.Failure {
 
 	if raceFail != nil {
 		return raceFail
+	}
+	if first != nil && first.prog < 0 {
+		return hx.Failf("wrong-result:parse-fresh-identifiers", "goroutine %d (iteration %d, %d goroutines, provider %s): %s", first.goroutine, first.iter, G, provider, short(first.got, 3000))
 	}
 	if first != nil {
 		return hx.Failf("wrong-result:parse", "program %d parsed on goroutine %d (iteration %d, %d goroutines, provider %s) differs from its sequential result: %s\nprogram:\n%s\nsequential:\n%s\nconcurrent:\n%s",
